@@ -114,8 +114,16 @@ class SubParam(nnx.Param):
   pass
 
 
-VT = {'Param': nnx.Param, 'BatchStat': nnx.BatchStat, 'Cache': nnx.Cache, 'Custom': Custom, 'SubParam': SubParam}
-COLOF = {'Param': 'params', 'BatchStat': 'batch_stats', 'Cache': 'cache', 'Custom': 'Custom', 'SubParam': 'SubParam'}
+class Queue(nnx.Variable):
+  """an unrelated type whose name sorts between Param and its subclass SubParam"""
+
+
+class StepStat(nnx.BatchStat):
+  pass
+
+
+VT = {'Param': nnx.Param, 'BatchStat': nnx.BatchStat, 'Cache': nnx.Cache, 'Custom': Custom, 'SubParam': SubParam, 'Queue': Queue, 'StepStat': StepStat}
+COLOF = {'Param': 'params', 'BatchStat': 'batch_stats', 'Cache': 'cache', 'Custom': 'Custom', 'SubParam': 'SubParam', 'Queue': 'Queue', 'StepStat': 'StepStat'}
 
 
 def _double_on_read(variable, value):
@@ -328,9 +336,82 @@ def registry_case(c, uid):
   return [[r[0], names.get(r[1], -1)] if r[0] == 'name' else r for r in out]
 
 
+def meta_case(c):
+  """Linen variables boxed with nn.Partitioned / nn.LogicallyPartitioned (names, rules, an explicit mesh) through ToNNX and back:
+  c['params']: [{'kind': 'plain'|'part'|'logical', 'rank': r, 'mesh': bool}]"""
+  import flax.linen as nn
+  from flax.nnx import bridge
+  from flax.nnx.bridge import variables as bv
+  mesh = jax.sharding.Mesh(np.array(jax.devices()[:1]).reshape(1, 1), axis_names=('mx', 'my'))
+  rules = (('la', 'mx'), ('lb', 'my'))
+  def names_of(d):
+    pool = ['la', 'lb', None] if d['kind'] == 'logical' else ['mx', 'my', None]
+    return tuple(pool[(d['seed'] + j) % 3] for j in range(d['rank']))
+
+  class Probe(nn.Module):
+    @nn.compact
+    def __call__(self, x):
+      tot = jnp.sum(x)
+      for i, d in enumerate(c['params']):
+        shape = (2,) * d['rank']
+        init = nn.initializers.constant(float(i + 1))
+        kw = {'mesh': mesh} if d['mesh'] else {}
+        if d['kind'] == 'part':
+          init = nn.with_partitioning(init, names_of(d), **kw)
+        elif d['kind'] == 'logical':
+          init = nn.with_logical_partitioning(init, names_of(d), rules=rules, **kw)
+        tot = tot + jnp.sum(self.param('p%d' % i, init, shape)) * (i + 2)
+      return tot, dict(self.variables['params'])
+
+  def describe(box):
+    if not isinstance(box, nn.meta.AxisMetadata):
+      return {'type': 'raw'}
+    return {'type': type(box).__name__, 'names': list(getattr(box, 'names', ['<missing>'])), 'mesh': getattr(box, 'mesh', '<missing>') is mesh if getattr(box, 'mesh', None) is not None else None,
+            'rules': [list(r) for r in getattr(box, 'rules', None)] if getattr(box, 'rules', None) is not None else None}
+  x = jnp.ones((2,))
+  lm = Probe()
+  lv = lm.init(jax.random.key(0), x)
+  want = {k: describe(v) for k, v in lv['params'].items()}
+  out = {'want': want}
+  # the public conversion must leave the caller's Linen variables as they were
+  attrs = bv.linen_vars_to_nnx_attrs(lv)
+  out['source_after'] = {k: describe(v) for k, v in lv['params'].items()}
+  try:
+    out['spec_after'] = str(nn.get_partition_spec(lv)['params'])
+  except Exception as e:  # pylint: disable=broad-except
+    out['spec_after'] = 'EXC:' + type(e).__name__
+  out['spec_before'] = str(nn.get_partition_spec(lm.init(jax.random.key(0), x))['params'])
+  model = bridge.ToNNX(lm, rngs=nnx.Rngs(0)).lazy_init(x)
+  nside = {}
+  for i, d in enumerate(c['params']):
+    var = getattr(model, 'p%d' % i)
+    if d['kind'] == 'plain':
+      continue
+    nside['p%d' % i] = {'sharding': list(getattr(var, 'sharding')) if getattr(var, 'sharding', None) is not None else None,
+                        'rules': [list(r) for r in getattr(var, 'sharding_rules')] if getattr(var, 'sharding_rules', None) is not None else None,
+                        'mesh': (getattr(var, 'mesh', None) is mesh) if getattr(var, 'mesh', None) is not None else None}
+  out['nnx_side'] = nside
+  calls = []
+  for _ in range(2):
+    y, boxes = model(x)
+    yref, _ = lm.apply({'params': {k: getattr(model, k).value for k in want}}, x)
+    calls.append({'boxes': {k: describe(v) for k, v in boxes.items()}, 'y': float(y), 'y_ref': float(yref)})
+  out['calls'] = calls
+  return out
+
+
 def main(payload):
   if payload.get('probe'):
     return probe()
+  if 'meta' in payload:
+    res = []
+    for c in payload['meta']:
+      try:
+        res.append({'ok': meta_case(c)})
+      except Exception as e:  # pylint: disable=broad-except
+        import traceback
+        res.append({'err': type(e).__name__, 'tb': traceback.format_exc()[-700:]})
+    return {'meta': res}
   res = {'tonnx': [], 'tolinen': []}
   if 'registry' in payload:
     res['registry'] = []
